@@ -25,6 +25,12 @@
     returns the container object with its own flags, usually none).  The pinned rules are
     kept as [nav1_pinned] and refuted in [AclProofs.v].
 
+    A third rule is *demanded but not implemented* (recorded known finding): the [node] of the
+    [StoredMetadata] items of [meta.values()] / [meta.items()] is modelled by [nav_meta] (a wrapper
+    with the owner's flags that is a local root of its own); the code hands out the raw objects
+    of the driver, rule [nav_meta_pinned], against which the harness compares the code and which
+    is refuted in [AclProofs.v].
+
     The underlying tree (HDF5 semantics of path lookup and of create/require) is modelled,
     not verified: a finite list of entries (path from the root, kind, "carries a metadata
     object of the queried schema").  This file contains definitions only. *)
@@ -79,7 +85,8 @@ Definition derive (n : node) (p : path) (k : kind) : node := mkN p k (nfl n) (ch
 
 (** ** The underlying tree *)
 
-Record entry : Type := mkE { epath : path; ekind : kind; emeta : bool }.
+(** [emeta]: carries an object of the queried schema; [eobjs]: carries any metadata object. *)
+Record entry : Type := mkE { epath : path; ekind : kind; emeta : bool; eobjs : bool }.
 Definition tree : Type := list entry.
 
 Fixpoint find (t : tree) (p : path) : option entry :=
@@ -98,6 +105,9 @@ Definition lookup (t : tree) (p : path) : option kind :=
 Definition has_meta (t : tree) (p : path) : bool :=
   match find t p with Some e => emeta e | None => false end.
 
+Definition has_objs (t : tree) (p : path) : bool :=
+  match find t p with Some e => eobjs e | None => false end.
+
 (** Proper non-empty prefixes of a path, shortest first. *)
 Fixpoint inits (p : path) : list path :=
   match p with
@@ -113,7 +123,7 @@ Definition blocked (t : tree) (p : path) : bool :=
 Definition add_missing (t : tree) (ps : list path) (k : kind) : tree :=
   fold_left (fun acc q => match lookup acc q with
                           | Some _ => acc
-                          | None => acc ++ [mkE q k false]
+                          | None => acc ++ [mkE q k false false]
                           end) ps t.
 
 (** [create_group] / [create_dataset]: fails if the name exists or an ancestor is a
@@ -147,6 +157,10 @@ Definition target (n : node) (a : parg) : path :=
 
 Inductive creator : Type := CreateGroup | RequireGroup | CreateDataset | RequireDataset.
 
+(** What is taken from a [StoredMetadata] item of a metadata listing: its [node] (the dataset
+    holding the serialised object), or that node's [file] / [parent]. *)
+Inductive metahop : Type := HNode | HFile | HParent.
+
 Inductive prim : Type :=
 | PGetItem (a : parg)            (* node[path] *)
 | PGet (a : parg)                (* node.get(path) *)
@@ -157,7 +171,8 @@ Inductive prim : Type :=
 | PVisit (rel : path)            (* the node passed to a visititems callback for [rel] *)
 | PCreate (c : creator) (a : parg)  (* return value of create_/require_ group/dataset *)
 | PQuery (tgt : path)            (* the result of node.metador.query(schema) at [tgt] *)
-| PRestrict (f : flags).
+| PRestrict (f : flags)
+| PMeta (h : metahop).           (* [.node] of an item of meta.values() / meta.items(), or its file / parent *)
 
 Inductive navres : Type :=
 | NOk (t : tree) (n : node)
@@ -243,6 +258,26 @@ Definition nav_query (t : tree) (n : node) (tgt : path) : navres :=
 Definition restrict (f : flags) (n : node) : node :=
   mkN (npath n) (nkind n) (f_or (nfl n) f) (if lo f then [] else nstack n).
 
+(** Metadata listings ([MetadorMeta.values] / [items], guarded by skel_only).  Paths of
+    metadata objects and of metadata directories are identified with the path of the node
+    they describe (the harness applies [to_data_node_path] to what the code hands out).
+
+    DEMANDED rule (the code does not implement it, see [nav_meta_pinned]): the node handed out
+    is a wrapper carrying the owner's flags and is a local root of its own, so that neither
+    [file] nor [parent] lead anywhere from it. *)
+Definition lo_only : flags := mkF false true false.
+
+Definition meta_node (n : node) : node := mkN (npath n) KDataset (f_or (nfl n) lo_only) [].
+
+Definition nav_meta (t : tree) (n : node) (h : metahop) : navres :=
+  if so (nfl n) then NRefused
+  else if negb (has_objs t (npath n)) then NErr
+  else match h with
+       | HNode => NOk t (meta_node n)
+       | HFile => nav_file t (meta_node n)
+       | HParent => nav_parent t (meta_node n)
+       end.
+
 Definition nav1 (t : tree) (n : node) (p : prim) : navres :=
   match p with
   | PGetItem a | PGet a => nav_lookup t n a
@@ -253,6 +288,7 @@ Definition nav1 (t : tree) (n : node) (p : prim) : navres :=
   | PCreate c a => nav_create t n c a
   | PQuery tgt => nav_query t n tgt
   | PRestrict f => NOk t (restrict f n)
+  | PMeta h => nav_meta t n h
   end.
 
 (** A chain of primitives; stops at the first step that does not yield a node. *)
@@ -294,6 +330,33 @@ Fixpoint nav_pinned (cfl : flags) (t : tree) (n : node) (ch : list prim) : navre
               end
   end.
 
+(** PINNED rule for metadata listings: the raw, unrestricted objects of the driver are handed
+    out ([StoredMetadata.node] is the raw dataset; its [file] is the whole container, its
+    [parent] the raw metadata directory).  A raw object has no flags and no guards. *)
+Definition nav_meta_pinned (t : tree) (n : node) (h : metahop) : navres :=
+  if so (nfl n) then NRefused
+  else if negb (has_objs t (npath n)) then NErr
+  else NOk t (match h with
+              | HNode => mkN (npath n) KDataset f_none []
+              | HFile => mkN [] KGroup f_none []
+              | HParent => mkN (npath n) KGroup f_none []
+              end).
+
+Definition nav1_pinned_meta (t : tree) (n : node) (p : prim) : navres :=
+  match p with
+  | PMeta h => nav_meta_pinned t n h
+  | _ => nav1 t n p
+  end.
+
+Fixpoint nav_pinned_meta (t : tree) (n : node) (ch : list prim) : navres :=
+  match ch with
+  | [] => NOk t n
+  | p :: r => match nav1_pinned_meta t n p with
+              | NOk t' n' => nav_pinned_meta t' n' r
+              | x => x
+              end
+  end.
+
 (** ** Protocol operations and their guards *)
 
 Inductive grpmut : Type :=
@@ -312,6 +375,7 @@ Inductive op : Type :=
 | OGrp (g : grpmut) (a : parg)
 | OMove (a b : parg)
 | OCopy (a b : parg)
+| OCopyNodes                     (* copy(source node object, destination group object) *)
 | OContains (a : parg)
 | OListing                       (* keys / len / iter / visit *)
 | ODsRead                        (* ds[...] *)
@@ -362,6 +426,7 @@ Definition guard (n : node) (o : op) : outcome :=
   match o, nkind n with
   | OGrp _ a, KGroup => refuse_if (guard_path n a || ro f)
   | OMove a b, KGroup | OCopy a b, KGroup => refuse_if (ro f || guard_path n a || guard_path n b)
+  | OCopyNodes, KGroup => refuse_if (ro f)      (* [_guard_path] applies to string arguments only *)
   | OContains a, KGroup => refuse_if (guard_path n a)
   | OListing, KGroup => Passed
   | ODsRead, KDataset => refuse_if (so f)
@@ -382,7 +447,7 @@ Definition attr_value_readers : list string := ["get"; "values"; "items"].
 (** Operations that change data, attributes or metadata when they reach the raw layer. *)
 Definition mutating (o : op) : bool :=
   match o with
-  | OGrp _ _ | OMove _ _ | OCopy _ _ => true
+  | OGrp _ _ | OMove _ _ | OCopy _ _ | OCopyNodes => true
   | ODsWrite => true
   | ODsMember name => mem name ds_ro_forbidden
   | OAttr ASetItem | OAttr ADelItem => true
@@ -443,10 +508,10 @@ Definition of_flags (f : flags) : sx := L [of_bool (ro f); of_bool (lo f); of_bo
 
 Definition sx_entry (x : sx) : option entry :=
   match x with
-  | L [p; k; m] =>
-      match sx_path p, sx_kind k, sx_bool m with
-      | Some p, Some k, Some m => Some (mkE p k m)
-      | _, _, _ => None
+  | L [p; k; m; o] =>
+      match sx_path p, sx_kind k, sx_bool m, sx_bool o with
+      | Some p, Some k, Some m, Some o => Some (mkE p k m o)
+      | _, _, _, _ => None
       end
   | _ => None
   end.
@@ -476,6 +541,13 @@ Definition sx_prim (x : sx) : option prim :=
           else if is "visit" then option_map PVisit (sx_path a)
           else if is "query" then option_map PQuery (sx_path a)
           else if is "restrict" then option_map PRestrict (sx_flags a)
+          else if is "meta_node" then
+            match a with
+            | A "node" => Some (PMeta HNode)
+            | A "file" => Some (PMeta HFile)
+            | A "parent" => Some (PMeta HParent)
+            | _ => None
+            end
           else None
       | [ab; sg] =>
           if is "getitem" then option_map PGetItem (sx_parg ab sg)
@@ -529,6 +601,7 @@ Definition sx_op (x : sx) : option op :=
       match args with
       | [] =>
           if is "listing" then Some OListing
+          else if is "copy_nodes" then Some OCopyNodes
           else if is "ds_read" then Some ODsRead
           else if is "ds_write" then Some ODsWrite
           else None
@@ -585,12 +658,13 @@ Definition of_navres (r : navres) : sx :=
   end.
 
 Definition of_tree (t : tree) : sx :=
-  of_list (fun e => L [of_path (epath e); of_kind (ekind e); of_bool (emeta e)]) t.
+  of_list (fun e => L [of_path (epath e); of_kind (ekind e); of_bool (emeta e); of_bool (eobjs e)]) t.
 
 (** Cases:
     [(nav tree (path kind flags) (prim ...) (prim ...))]: run the chain from a fresh
       start node, then apply every primitive of the second list ("fan") to the node
-      reached -> [(result-of-chain (result-of-fan-prim ...) tree-after-chain)];
+      reached -> [(result-of-chain (result-of-fan-prim ...) tree-after-chain)]; for a metadata
+      listing primitive the result is [(M pinned-rule-result demanded-rule-result)];
     [(guard kind flags (op ...))] -> outcome of every operation on a node of that kind
       with those flags. *)
 Definition run_c15 (x : sx) : sx :=
@@ -601,7 +675,13 @@ Definition run_c15 (x : sx) : sx :=
       | Some t, Some p, Some k, Some f, Some ch, Some fan =>
           match nav t (mkN p k f []) ch with
           | NOk t' n =>
-              L [of_navres (NOk t' n); of_list (fun q => of_navres (nav1 t' n q)) fan; of_tree t']
+              L [of_navres (NOk t' n);
+                 of_list (fun q => match q with
+                                   | PMeta _ => L [A "M"; of_navres (nav1_pinned_meta t' n q);
+                                                   of_navres (nav1 t' n q)]
+                                   | _ => of_navres (nav1 t' n q)
+                                   end) fan;
+                 of_tree t']
           | r => L [of_navres r; L []; L []]
           end
       | _, _, _, _, _, _ => sx_bad "c15 nav decode"
